@@ -207,13 +207,13 @@ theorem spawnAll_spec {w w' : World} {ks : List Key} {a0 : Arch} (hr : Reserved 
   refine ⟨?_, post.new, ⟨a', ?_, hids, hcomps'.trans hcomps, hcols, hidx', ?_⟩, ?_, post.old, ?_, post.len, post.covers⟩
   · exact (reserved_nil_iff _).2 ⟨post.wf, rfl, rfl⟩
   · show w1.archs.get 0 = some a'
-    rw [harch, Slab.get_set]; simp [ha]
+    rw [harch, Slab.get_set_reserve]; simp [ha]
   · intro i k hi
     rw [hids, List.getElem?_append_right (Nat.le_add_right _ _), Nat.add_sub_cancel_left]
     exact hi
   · intro i hi
     show w1.archs.get i = _
-    rw [harch, Slab.get_set, if_neg (fun hc => hi hc.1)]
+    rw [harch, Slab.get_set_reserve, if_neg (fun hc => hi hc.1)]
   · intro k l hl
     have hk : k ∉ ks := by
       intro hm
@@ -457,7 +457,7 @@ theorem handlerPhase_extends_reserved {it : QItem} {info : EvInfo} {loc : Loc} {
     let wh := ((handlerPhase it info loc hs).run.run w).2
     wh.entities = w.entities ∧ ArchOK wh.archs ∧ (∀ i, (wh.archs.get i).map (·.ids) = (w.archs.get i).map (·.ids)) ∧
       ∃ ks', Reserved wh (ks ++ ks') := by
-  have hq : EV (HQ w.entities (fun i => (w.archs.get i).map (·.ids)) ks) w :=
+  have hq : EV_reserve (HQ w.entities (fun i => (w.archs.get i).map (·.ids)) ks) w :=
     ⟨rfl, ⟨har, fun _ => rfl⟩, [], hr.1,
       by rw [List.append_nil]; exact hr.2.1, by rw [List.append_nil]; exact hr.2.2⟩
   obtain ⟨he, ⟨har', hids⟩, ks', wf, hc, hres⟩ :=
@@ -540,7 +540,7 @@ theorem relocating_effect_keeps_ids {it : QItem} {info : EvInfo} {loc : Loc} {w 
     (hkind : info.kind ≠ .spawn ∧ info.kind ≠ .despawn) (hr : Reserved w ks) :
     let w' := ((effectPhase it info loc).run.run w).2
     Reserved w' ks ∧ ∀ k, w'.entities.contains k = w.entities.contains k := by
-  have key : Keeps (EV (MQ ks w.entities.contains)) (effectPhase it info loc) := by
+  have key : Keeps (EV_reserve (MQ ks w.entities.contains)) (effectPhase it info loc) := by
     unfold effectPhase
     have h1 := @traverseInsert_mq ks w.entities.contains
     have h2 := @traverseRemove_mq ks w.entities.contains
